@@ -7,6 +7,7 @@
 import LiquidModel.Model.BlockParse
 import LiquidModel.Props.C03
 import LiquidModel.Props.C07
+import LiquidModel.Generated.Registry
 namespace Liquid.C01
 open Liquid Liquid.BP
 
@@ -308,5 +309,14 @@ example : parseTop stdCfg 50 [.tag "if".toList true false, .raw, .tag "else".toL
   rfl
 example : parseTop stdCfg 50 [.tag "for".toList true false, .tag "endif".toList true true, .eoi] = .err := by
   rfl
+
+/-- **The model's registry is the code's registry.** The tags and blocks (with their end tags) that
+`ParserBuilder::stdlib` registers — regenerated from src/parser.rs and the reflection impls on every
+run — are exactly those of `stdCfg`, the configuration `C01_block_no_panic` is instantiated with by
+the harness.  Registering another block, or renaming an end tag, breaks this proof. -/
+theorem C01_registry_is_stdCfg :
+    Generated.regTags.map String.toList = BP.stdCfg.tags ∧
+    Generated.regBlocks.map (fun ab => (ab.1.toList, ab.2.toList)) = BP.stdCfg.blocks.map (fun b => (b.1, b.2.1)) := by
+  decide
 
 end Liquid.C01
